@@ -268,19 +268,37 @@ func c07HeadFallback(c *core.Ctx, m *errModel) {
 		pos token.Pos
 	}
 	var rows []row
-	for _, b := range fn.Blocks {
-		for _, in := range b.Instrs {
-			switch x := in.(type) {
-			case *ssa.Phi:
-				if x.Type().String() == "error" {
-					for i, e := range x.Edges {
-						rows = append(rows, row{e, b.Preds[i], x.Pos()})
+	// the fallback itself and the private helpers the switch may have moved to
+	var scope []*ssa.Function
+	for _, f := range withHelpers(fn) {
+		if f.Parent() == nil {
+			scope = append(scope, f)
+		}
+	}
+	// the switched-on value is the response's StatusCode, directly or as the
+	// argument bound to a helper's parameter
+	isStatus := func(x ssa.Value) bool {
+		if _, fld, isF := facts.FieldOf(facts.Resolve(x)); isF && fld == "StatusCode" {
+			return true
+		}
+		_, fld, isF := facts.FieldOf(facts.Resolve(resolveUp(x, fn, 3)))
+		return isF && fld == "StatusCode"
+	}
+	for _, f := range scope {
+		for _, b := range f.Blocks {
+			for _, in := range b.Instrs {
+				switch x := in.(type) {
+				case *ssa.Phi:
+					if x.Type().String() == "error" {
+						for i, e := range x.Edges {
+							rows = append(rows, row{e, b.Preds[i], x.Pos()})
+						}
 					}
-				}
-			case *ssa.Return:
-				if len(x.Results) == 1 {
-					if _, isPhi := x.Results[0].(*ssa.Phi); !isPhi {
-						rows = append(rows, row{facts.RetVal(x, 0), b, x.Pos()})
+				case *ssa.Return:
+					if len(x.Results) == 1 {
+						if _, isPhi := x.Results[0].(*ssa.Phi); !isPhi {
+							rows = append(rows, row{facts.RetVal(x, 0), b, x.Pos()})
+						}
 					}
 				}
 			}
@@ -288,34 +306,36 @@ func c07HeadFallback(c *core.Ctx, m *errModel) {
 	}
 	// or: the result is looked up, by resp.StatusCode, in a frozen package-level
 	// map[int]error whose literal supplies the rows
-	for _, b := range fn.Blocks {
-		for _, in := range b.Instrs {
-			lk, ok := in.(*ssa.Lookup)
-			if !ok {
-				continue
-			}
-			if _, fld, isF := facts.FieldOf(facts.Resolve(lk.Index)); !isF || fld != "StatusCode" {
-				continue
-			}
-			g := loadedGlobal(lk.X)
-			if g == nil {
-				continue
-			}
-			entries, frozen := globalMapEntries(c, g)
-			if !frozen {
-				c.Fail("C07.R2", "head-fallback/table-frozen", lk.Pos(), "the HEAD status -> error table is modified after initialisation")
-				continue
-			}
-			for _, e := range entries {
-				name := errGlobalOf(e.Val)
-				st, isK := facts.ConstInt(e.Key)
-				if name == "" || !isK {
+	for _, f := range scope {
+		for _, b := range f.Blocks {
+			for _, in := range b.Instrs {
+				lk, ok := in.(*ssa.Lookup)
+				if !ok {
 					continue
 				}
-				n++
-				tbl, has := m.StatusOf[name]
-				c.Check(has && tbl == st, "C07.R2", sprintf("head-fallback/%d", st), e.Pos, sprintf("HEAD %d -> %s, whose code maps back to %d", st, name, st),
-					sprintf("the HEAD fallback maps status %d to %s, whose code is answered with status %d by the server: a second hop changes the status", st, name, tbl))
+				if !isStatus(lk.Index) {
+					continue
+				}
+				g := loadedGlobal(lk.X)
+				if g == nil {
+					continue
+				}
+				entries, frozen := globalMapEntries(c, g)
+				if !frozen {
+					c.Fail("C07.R2", "head-fallback/table-frozen", lk.Pos(), "the HEAD status -> error table is modified after initialisation")
+					continue
+				}
+				for _, e := range entries {
+					name := errGlobalOf(e.Val)
+					st, isK := facts.ConstInt(e.Key)
+					if name == "" || !isK {
+						continue
+					}
+					n++
+					tbl, has := m.StatusOf[name]
+					c.Check(has && tbl == st, "C07.R2", sprintf("head-fallback/%d", st), e.Pos, sprintf("HEAD %d -> %s, whose code maps back to %d", st, name, st),
+						sprintf("the HEAD fallback maps status %d to %s, whose code is answered with status %d by the server: a second hop changes the status", st, name, tbl))
+				}
 			}
 		}
 	}
@@ -327,7 +347,7 @@ func c07HeadFallback(c *core.Ctx, m *errModel) {
 		var st int64 = -1
 		for _, cd := range facts.CondsAt(rw.at) {
 			if x, op, y, ok := facts.Cmp(cd); ok && op == token.EQL {
-				if _, fld, isF := facts.FieldOf(facts.Resolve(x)); isF && fld == "StatusCode" {
+				if isStatus(x) {
 					if k, isK := facts.ConstInt(y); isK && st < 0 {
 						st = k
 					}
@@ -355,7 +375,7 @@ func c07HeadFallback(c *core.Ctx, m *errModel) {
 						}
 						for _, cd := range facts.EdgeConds(p, si) {
 							if x, op, y, ok := facts.Cmp(cd); ok && op == token.EQL {
-								if _, fld, isF := facts.FieldOf(facts.Resolve(x)); isF && fld == "StatusCode" {
+								if isStatus(x) {
 									if k, isK := facts.ConstInt(y); isK {
 										sts = append(sts, k)
 										hit = true
